@@ -319,7 +319,7 @@ class InstrumentedAsyncServer:
     async def _eio_send_ping(socket, self):  # pragma: no cover
         eio_sid = socket.sid
         t = time.time()
-        for namespace in self.sio.manager.get_namespaces():
+        for namespace in list(self.sio.manager.get_namespaces()):
             sid = self.sio.manager.sid_from_eio_sid(eio_sid, namespace)
             if sid:
                 serialized_socket = self.serialize_socket(sid, namespace,
